@@ -44,7 +44,7 @@ class Ctx:
 
     # ---- PX with caching
     def px(self, name, inline=None, setup=None, extra_models=None, key=None, max_paths=20000, args=None,
-           follow_yield=False, on_event=None, max_depth=4):
+           follow_yield=False, on_event=None, max_depth=4, loop_assume=None):
         if isinstance(inline, (set, frozenset, list, tuple)):
             names = frozenset(inline)
             inl = lambda c, d, names=names: (c.get("res_path") in names)
@@ -56,12 +56,13 @@ class Ctx:
             inl = inline
             ikey = ("fn", key)
         ck = (name, ikey, key)
-        if ck in self._pxcache and setup is None and on_event is None:
+        if ck in self._pxcache and setup is None and on_event is None and loop_assume is None:
             return self._pxcache[ck]
         if name not in self.facts.bodies:
             raise FailClosed("anchor missing: no MIR body named %r" % name)
         px = P.PX(self.facts, models=M.install(extra_models), inline=inl, max_paths=max_paths,
                   follow_yield=follow_yield, on_event=on_event, max_depth=max_depth)
+        px.loop_assume = loop_assume
         try:
             outs = px.run(name, args=args, setup=setup)
         except P.PathBudgetExceeded as e:
@@ -80,7 +81,7 @@ class Ctx:
                         self.opaque_callees.add(nm)
                     elif ev.get("inlined"):
                         self.analysed["functions"].add(nm)
-        if setup is None and on_event is None:
+        if setup is None and on_event is None and loop_assume is None:
             self._pxcache[ck] = outs
         return outs
 
